@@ -952,8 +952,32 @@ func ruleF5(c *Ctx) {
 					}
 				case "(*text/template.Template).Execute":
 					a := ci.Common().Args[2]
-					if mi, ok := a.(*ssa.MakeInterface); ok && isFieldLoad(mi.X, "SymTable") {
-						okExec = true
+					if mi, ok := a.(*ssa.MakeInterface); ok {
+						if isFieldLoad(mi.X, "SymTable") {
+							okExec = true
+						}
+						// the helper's parameter, bound at every call in the unit to the SymTable field
+						if prm, isP := mi.X.(*ssa.Parameter); isP && g != f {
+							idx, sites, all := -1, 0, true
+							for i, pp := range g.Params {
+								if pp == prm {
+									idx = i
+								}
+							}
+							for _, h := range unitOf(f, 3) {
+								callsIn(h, func(cj ssa.CallInstruction) {
+									if cj.Common().StaticCallee() == g && idx >= 0 && idx < len(cj.Common().Args) {
+										sites++
+										if !isFieldLoad(cj.Common().Args[idx], "SymTable") {
+											all = false
+										}
+									}
+								})
+							}
+							if sites > 0 && all {
+								okExec = true
+							}
+						}
 					}
 				}
 			})
